@@ -9,6 +9,8 @@ package pppoe
 //        G/<mac>/<sv>/<cv>                 Generate (the real one), remembered as g<i> (i = 0,1,..)     -> c:<hex>
 //        V/g<i>/<mut>/<mac>/<sv>/<cv>      Validate cookie g<i> after mutation <mut> for that tuple      -> 1 | 0
 //                                          mut = id | x<i>.<mask> (xor byte i, no-op beyond the end) | t<n> | a<hex>
+//        N                                 switch to a NEW cookie manager (fresh secret)                  -> -
+//        V/z<hex>/...                      Validate raw bytes nobody issued
 //        L/<ttl_ns>                        change the manager's lifetime (in-package seam)               -> -
 //        W/<k>                             wait until the k-th second after the first one               -> -
 //     -> now=<first second> <one token per step>
@@ -114,7 +116,9 @@ func vc04Seq(f []string) string {
 				outs = append(outs, "c:"+vc04Show(c))
 			case "V":
 				var c []byte
-				if i, e := strconv.Atoi(p[1][1:]); e == nil && i < len(gens) {
+				if p[1][0] == 'z' { // raw bytes that no manager issued
+					c = vc04Hex(p[1][1:])
+				} else if i, e := strconv.Atoi(p[1][1:]); e == nil && i < len(gens) {
 					c = gens[i]
 				}
 				c = vc04Mutate(c, p[2])
@@ -123,6 +127,16 @@ func vc04Seq(f []string) string {
 				} else {
 					outs = append(outs, "0")
 				}
+			case "N":
+				// another cookie manager (another BNG / a restart: fresh secret), same lifetime; g<i> keep naming the
+				// cookies issued so far, none of which THIS manager has issued
+				old := cm.ttl
+				cm, err = NewCookieManager(time.Second)
+				if err != nil {
+					return "nomanager"
+				}
+				cm.ttl = old
+				outs = append(outs, "-")
 			case "L":
 				n, _ := strconv.ParseInt(p[1], 10, 64)
 				cm.ttl = time.Duration(n)
